@@ -55,6 +55,7 @@ class Case:
     dask_labels: bool = False
     scheduler: str = "sync"
     stream: str = ""
+    expected_kind: str = "array"   # container handed to flox: "array" (ndarray) | "list" | "index" (pandas.Index)
 
     def key(self):
         d = asdict(self)
@@ -137,6 +138,12 @@ def run_impl(c: Case):
     kw = dict(func=c.func, sort=c.sort)
     if c.expected is not None:
         ex = np.array(c.expected)
+        if c.expected_kind == "list":
+            ex = list(c.expected)
+        elif c.expected_kind == "index":
+            import pandas as pd
+
+            ex = pd.Index(ex)
         kw["expected_groups"] = ex
     if c.fill is not None:
         kw["fill_value"] = c.fill
@@ -436,7 +443,9 @@ def cmp_impl_oracle(c: Case, impl: dict, oracle: dict, in_domain) -> str | None:
             except Exception:
                 ok = False
             else:
-                if mode == "exact" or fo == fi or math.isinf(fo) or math.isinf(fi):
+                if isinstance(ov, (int, np.integer)) and isinstance(iv, (int, np.integer)) and not isinstance(ov, (bool, np.bool_)):
+                    ok = int(ov) == int(iv)          # exact, also beyond 2**53
+                elif mode == "exact" or fo == fi or math.isinf(fo) or math.isinf(fi):
                     ok = fo == fi
                 elif mode == "rounded":
                     ok = abs(fo - fi) <= 2 * math.ulp(fo)
